@@ -97,10 +97,17 @@ Definition in_i32 (z : Z) : bool := ((i32_min <=? z) && (z <=? i32_max))%Z.
 (* `*int as usize` (try_into_numeric_index): two's complement wrap, 64-bit *)
 Definition as_usize (i : Z) : Z := if (i <? 0)%Z then (two64 + i)%Z else i.
 
-(* vec_op "[i]": `if idx >= len { bail!("index out of bounds") }`, then an ArrayPtr that is dereferenced *)
+Definition isize_max : Z := 9223372036854775807%Z.
+
+(* vec_op "[i]": `if idx >= len { bail!("index out of bounds") }`, then an ArrayPtr that is dereferenced.
+   A Vec never holds more than isize::MAX elements, so an index above isize::MAX (every negative int
+   after the cast) is out of bounds whatever the length: the model states that consequence explicitly.
+   Indices are mscript ints (i32); anything else is not a program. *)
 Definition vec_index (xs : list val) (i : Z) : res nat :=
-  let idx := as_usize i in
-  if (idx >=? Z.of_nat (length xs))%Z then Fail Err else Ok (Z.to_nat idx).
+  if negb (in_i32 i) then Fail Stuck
+  else
+    let idx := as_usize i in
+    if ((idx >=? Z.of_nat (length xs)) || (isize_max <? idx))%Z then Fail Err else Ok (Z.to_nat idx).
 
 (* Vec indexing `v[n]` / `get(n).unwrap()`: a Rust panic when out of range *)
 Definition vec_at (xs : list val) (n : nat) : res val :=
@@ -473,8 +480,9 @@ Definition step (legacy : bool) (st : state) (c : cop) : res (state * list obs) 
   | Remove v i =>
     do lxs <- get_vec st v;
     let xs := snd lxs in
+    if negb (in_i32 i) then Fail Stuck
     (* `i32 -> usize try_into` fails for a negative int *)
-    if (i <? 0)%Z then Fail Err
+    else if (i <? 0)%Z then Fail Err
     else if (i >=? Z.of_nat (length xs))%Z then
       (* Vec::remove panics "removal index (is i) should be < len"; fixes/c13-remove-bounds.diff: bail! *)
       Fail (if legacy then Panic else Err)
